@@ -99,6 +99,7 @@ def main():
   A["opsels"] = ["*", "FULLY_CONNECTED", "ADD"]
   A["queryops"] = ["FULLY_CONNECTED", "ADD"]
   A["cfgalgs"] = [("srq", "minmax"), ("dflt", "noq")]
+  A["lists"] = []
   consts, tabs = recipe.tla_constants(A, 1 if args.tier == "quick" else 2, ["wcfg", "noqcfg"])
   r = tlc.run("C10_recipe", "Recipe", consts, invariants=["ScopesMatchAlike", "SelectionAgrees"], view="View", workers=16, timeout=3600)
   if r.error or r.rc not in (0, 12):
